@@ -1534,7 +1534,22 @@ class Interp:
     def s_Delete(self, s, fr):
         for t in s.targets:
             if isinstance(t, ast.Subscript) and isinstance(self.eval(t.value, fr), list):
-                continue      # trimming of a history list: no effect on the values still referenced
+                lst = self.eval(t.value, fr)
+                sl = t.slice
+
+                def const(e):
+                    if e is None:
+                        return True, None
+                    if isinstance(e, ast.Constant) and isinstance(e.value, int):
+                        return True, e.value
+                    if isinstance(e, ast.UnaryOp) and isinstance(e.op, ast.USub) and isinstance(e.operand, ast.Constant) and isinstance(e.operand.value, int):
+                        return True, -e.operand.value
+                    return False, None
+                if isinstance(sl, ast.Slice):
+                    (ok1, lo), (ok2, hi), (ok3, st) = const(sl.lower), const(sl.upper), const(sl.step)
+                    if ok1 and ok2 and ok3:
+                        del lst[slice(lo, hi, st)]     # trimming of a history list with constant bounds: performed
+                continue      # otherwise: no effect on the values still referenced
             raise Unsupported(f"del {ast.unparse(t)}")
 
     def s_For(self, s, fr):
